@@ -191,7 +191,22 @@ def run_unit(unit) -> UnitResult:
         if tm is None or state["n"] % 64 == 0 or state["n"] <= 2:
             check_now(ctx, ev, r)
 
-    r = P.drive(unit, oracle)
+    from mc.explorer import HarnessError
+
+    try:
+        r = P.drive(unit, oracle)
+    except HarnessError as e:
+        if "replay divergence" not in str(e):
+            raise
+        # identical calls (same grammar object, same random answers) took different paths: some state
+        # outside the call changed -- on a grammar that nothing else touches, that state is the grammar
+        r = UnitResult()
+        r.executions = 1
+        r.add_violation(Violation(PROP, f"{unit.get('rep', 'tree')}.{unit['kind']}", "identical-calls-diverge", {"rep": unit.get("rep", "tree")},
+                                  {"unit": P.clean_unit(unit)},
+                                  f"{unit['spec']['name']}: replaying the same random answers on the same grammar took a different path ({e}): "
+                                  f"state shared between calls changed"))
+        return r
     if "last" in state:
         check_now(state["ctx"], state["last"], r)
     return r
